@@ -247,7 +247,7 @@ func runHistory(c *hx.Ctx, r *hx.Rng, idx int, maxOps int) error {
 	if err != nil {
 		return err
 	}
-	sh.DisableBackground()
+	sh.DetachFromCompactor()
 	h := &history{c: c, sh: sh, dir: dir, spec: lww{}, base: lww{}, nParts: walParts, flushed: map[key]bool{}, inMem: map[key]bool{}, opsKinds: map[string]int{}}
 	c.Emit(fmt.Sprintf("open %d", idx), "ok")
 	c.Emit(fmt.Sprintf("parts %d", walParts), "ok")
@@ -308,6 +308,7 @@ func runHistory(c *hx.Ctx, r *hx.Rng, idx int, maxOps int) error {
 			var e error
 			perr := hx.Safe(func() { e = h.sh.LevelCompact(lv) })
 			c.Emit(fmt.Sprintf("compact %d", lv), ansOf(perr, e))
+			c.Count(fmt.Sprintf("files-after-level-compact=%d", min(len(h.sh.Files("m")), 6)))
 			kinds += "c"
 			c.Count("op:level-compact")
 		case p < 85:
@@ -318,7 +319,8 @@ func runHistory(c *hx.Ctx, r *hx.Rng, idx int, maxOps int) error {
 			c.Count("op:full-compact")
 		case p < 93:
 			var e error
-			perr := hx.Safe(func() { e = h.sh.MergeOutOfOrder(r.Bool(), true) })
+			full, force := r.Bool(), r.Chance(60)
+			perr := hx.Safe(func() { e = h.sh.MergeOutOfOrder(full, force) })
 			c.Emit("merge", ansOf(perr, e))
 			kinds += "m"
 			c.Count("op:merge-ooo")
@@ -331,7 +333,7 @@ func runHistory(c *hx.Ctx, r *hx.Rng, idx int, maxOps int) error {
 					var nsh *engine.VerifShard
 					nsh, e = engine.VerifOpenShard(dir, walParts)
 					if e == nil {
-						nsh.DisableBackground()
+						nsh.DetachFromCompactor()
 						h.sh = nsh
 					}
 				}
